@@ -59,13 +59,16 @@ def escaping_sites():
     """file:line of the allocation sites of /repo that the gc compiler moves to the heap (go build -gcflags=-m)"""
     if 'set' not in _ESC:
         r = subprocess.run(['go', 'build', '-gcflags=-m', './20', './30', './31', './40'], cwd='/repo', env=GOENV, stdout=subprocess.PIPE, stderr=subprocess.STDOUT, universal_newlines=True)
-        s = set()
+        # site -> number of escaping nodes the compiler reports there (e.g. a make whose result is also boxed
+        # into an interface is reported twice: two allocations)
+        s = {}
         for line in r.stdout.splitlines():
             if 'escapes to heap' in line or 'moved to heap' in line:
                 p = line.split(':')
                 if len(p) >= 3 and p[0].endswith('.go'):
                     f = p[0][2:] if p[0].startswith('./') else p[0]
-                    s.add('/repo/%s:%s:%s' % (f, p[1], p[2]))
+                    k = '/repo/%s:%s:%s' % (f, p[1], p[2])
+                    s[k] = s.get(k, 0) + 1
         _ESC['set'] = s
     return _ESC['set']
 
